@@ -4202,7 +4202,8 @@ fn get_arg_type(s: &str, quoted: bool) -> ArgType {
                 return ArgType::List;
             }
         }
-        if !c.is_ascii_digit() {
+        if !c.is_ascii_digit() && c != '.' {
+            //(a period does not end a number, at most one is allowed, which is checked below)
             if c != '-' || prevc != None {
                 numeric = false;
             }
